@@ -123,6 +123,10 @@ def length_preserving_toupper(prog):
 def string_size_atom(f, s, R, toupper_ok):
     """canonical atom for size() of string expression s"""
     sn = f.nodes[f.strip(s, 'all')]
+    hops = 0
+    while sn['k'] == 'DeclRefExpr' and sn['decl'].get('dk') == 'local' and sn['decl']['id'] in R.single_def_locals() and hops < 4:
+        sn = f.nodes[f.strip(local_init(f, sn['decl']['id']), 'all')]
+        hops += 1
     if sn['k'] == 'CallExpr' and sn.get('callee', {}).get('qname') == 'ezc3d::toUpper' and toupper_ok:
         return R.render(sn['args'][0]) + '.size'
     return R.render(s) + '.size'
@@ -200,6 +204,14 @@ def classify_write(prog, f, n, R, toupper_ok):
                     if d is None or d < 0:
                         return 'violation', 'zeros', 'byte count %s exceeds the zero buffer of %s bytes' % (P.show(w), P.show(z))
             return 'ok', 'zeros', 'zero-filled buffer of %s bytes' % P.show(z)
+    import codec as _codec
+    ga = _codec.Extractor(prog, 'w').gather_analysis(f, R, n, None, 0)
+    if ga is not None:
+        if ga['verdict'] == 'exact':
+            return 'ok', 'gathered', 'local buffer `%s` filled by appends; %s' % (ga['local'], ga['why'])
+        if ga['verdict'] == 'mismatch':
+            return 'violation', 'gathered', 'local buffer `%s`: %s' % (ga['local'], ga['why'])
+        return 'undecided', 'gathered', 'local buffer `%s`: %s' % (ga['local'], ga['why'])
     if m['k'] == 'CXXMemberCallExpr' and m['callee']['name'] in ('c_str', 'data') and m['callee'].get('classq') == 'std::basic_string':
         atom = string_size_atom(f, m['obj'], R, toupper_ok)
         for w in widths:
